@@ -610,17 +610,40 @@ def format_members(ctx, fp, cap=40):
     return vals
 
 
+DIRECTED = [
+    'return (min(4, y), max(-7, x), min(x, y, 2), max(x, 2), min(x, -0.0), max(y, 0))',
+    'with I8:\n        a = abs(x)\n        b = x * 3\n        c = -x\n    with U4:\n        d = x + y\n    return (a, b, c, d)',
+    'a = x * -0.0\n    b = x * 0\n    c = (x - x) * y\n    return (a, b, c, -a, abs(c))',
+    'a = x + 1\n    b = (x * y) + x\n    c = fp.fma(x, y, 1)\n    d = x / 4\n    return (a, b, c, d, a - b)',
+    'with fp.REAL:\n        a = x + y\n        b = x * y\n        c = -x\n        d = abs(y)\n        e = a * b - c\n    return (a, b, c, d, e, fp.round(e))',
+    's = 0\n    for e in xs:\n        s = s + e\n    t = x\n    for i in range(3):\n        t = t * 2 + i\n    k = 0\n    while k < 3:\n        with fp.REAL:\n            y = y + y\n        with fp.INTEGER:\n            k = k + 1\n    return (s, t, y)',
+    'if fp.isnan(x) or fp.isinf(x):\n        r = 0\n    elif x == 0:\n        r = x\n    else:\n        with fp.REAL:\n            e = fp.logb(x)\n        r = e\n        if e < 0:\n            r = x * 4\n    if y > 1:\n        q = y - 1\n    else:\n        q = y\n    return (r, q)',
+    'with Q2:\n        a = fp.round(x)\n        with P3:\n            b = a * y\n        c = a + b\n    with S3:\n        d = fp.floor(c) - fp.ceil(x)\n    return (a, b, c, d, (a if a < b else d))',
+]
+
+
+def directed_sources():
+    return [NUMERIC_HEADER + '@fp.fpy\ndef f(x, y, xs):\n    ' + b + '\n' for b in DIRECTED]
+
+
 def trace_monitor(res: Result, fp, rng, i, n, quick):
     from fpy2.analysis.format_infer import FormatInfer, FunctionFormat, ListFormat
     from ..gen import prog as genprog, run as genrun
     from ..monitors.trace import run_traced
     nprog = (480 if quick else 9000) // n
     errors = {}
+    dsrcs = directed_sources()
     with genrun.Scratch(prefix='vf-c14-') as work:
-        for pi in range(nprog):
+        for pi in range(-len(dsrcs), nprog):
             if len(res.violations) >= 40:
                 break
-            src = NumGen(rng).program()
+            if pi < 0:
+                # directed programs: spread over the shards, every pinned signature, all members as arguments
+                if (pi + len(dsrcs)) % n != i:
+                    continue
+                src = dsrcs[pi + len(dsrcs)]
+            else:
+                src = NumGen(rng).program()
             try:
                 mod = genprog.load_module(src, work, 'c14')
             except Exception as e:
@@ -628,12 +651,18 @@ def trace_monitor(res: Result, fp, rng, i, n, quick):
                 continue
             res.count('programs')
             shown = src[src.find('@fp.fpy'):]
-            for (ctext, atext) in rng.sample(PINS, 3):
+            for (ctext, atext) in (PINS if pi < 0 else rng.sample(PINS, 3)):
                 cctx = eval(ctext, {'fp': fp})
                 actx = eval(atext, {'fp': fp})
                 afmt = actx.format()
                 try:
-                    fa = FormatInfer.analyze(mod.f.ast, fn_fmt=FunctionFormat(cctx, (afmt, afmt, ListFormat(afmt)), None))
+                    out = genrun.guarded(lambda: FormatInfer.analyze(mod.f.ast, fn_fmt=FunctionFormat(cctx, (afmt, afmt, ListFormat(afmt)), None)), timeout=10.0)
+                    if out[0] == 'timeout':
+                        res.count('analysis_timeout')
+                        continue
+                    if out[0] == 'exc':
+                        raise out[1]
+                    fa = out[1]
                 except Exception as e:
                     key = f'{type(e).__name__}: {str(e)[:60]}'
                     errors[key] = errors.get(key, 0) + 1
@@ -643,8 +672,12 @@ def trace_monitor(res: Result, fp, rng, i, n, quick):
                 members = format_members(actx, fp)
                 chk = FormatChecker(fa, fp, res, shown, f'ctx={ctext} args in {atext}')
                 ninputs = 10 if quick else 16
-                for _ in range(ninputs):
-                    args = [rng.choice(members), rng.choice(members), [rng.choice(members) for _ in range(rng.choice([0, 1, 2, 3]))]]
+                if pi < 0:
+                    sub = members if len(members) <= 14 else rng.sample(members, 10) + [m for m in members if m.isnan or m.isinf or m.is_zero()]
+                    plan = [[a, b, [a, b]] for a in sub for b in sub]
+                else:
+                    plan = [[rng.choice(members), rng.choice(members), [rng.choice(members) for _ in range(rng.choice([0, 1, 2, 3]))]] for _ in range(ninputs)]
+                for args in plan:
                     chk.args_repr = repr([str(a) for a in args[:2]] + [[str(a) for a in args[2]]])
                     out = genrun.guarded(lambda: run_traced(mod.f, args, cctx, chk), timeout=8.0)
                     if out[0] == 'ok':
